@@ -15,13 +15,17 @@ CFG = dict(
          "each with a driver — a descriptor entry without driver is reported) x user kind {sysadmin, admin, read-write, "
          "read, no permission} x credential {none, session id, login token, login token of a user with a second live login} "
          "x database {own, other, systemdb, none} (selected by the credential and named in the request) x state of the "
-         "credential {valid, expired, user deactivated after issue, permission revoked after issue}, with authentication on; "
+         "credential {valid, expired, user deactivated after issue, permission REVOKEd after issue, permission replaced by a "
+         "GRANT of the next lower level after issue, ... of the next higher level after issue}, with authentication on; "
          "plus every RPC in maintenance mode (no credential / anonymous token per database) and with authentication off. "
          "Each cell is ONE real gRPC call through the server's own interceptor chain over bufconn; recorded: refused "
          "(PermissionDenied/Unauthenticated or one of immudb's fixed refusal texts) vs. through, and which databases got a "
-         "new transaction. Cell count is in input_distribution['_cells_total'] (about 17 000); impossible combinations are "
-         "skipped and counted under '_skipped: ...' (sessions without database, deactivating/re-permissioning the sysadmin, "
-         "CreateUser/ChangeSQLPrivileges naming systemdb). Every cell is non-trivial; distinct by the whole cell.",
+         "new transaction. CELL count is input_distribution['_cells_total'] (about 20 000, per outcome under 'cells .../...'); "
+         "the Coq side receives them as ONE CASE PER GROUP of at most 31 cells of the same credential context (so "
+         "'evaluations' counts groups, about 650, plus 93 specification rows; a replay re-runs the group cell by cell). "
+         "Impossible combinations are skipped and counted under '_skipped: ...' or not planned (sessions without database, "
+         "deactivating/re-permissioning the sysadmin, lowering read / raising admin, CreateUser/ChangeSQLPrivileges naming "
+         "systemdb). Every group is non-trivial; distinct by the whole term.",
     trusted_base=COMMON_TB + [
         "vtrans-auth (harness/cmd/vtrans-auth, go/parser+go/ast): extraction of methodsPermissions/maintenanceMethods, of the "
         "service descriptors, of the interceptor chains and, per handler, of the ordered guards (config tests, getDBFromCtx "
@@ -29,7 +33,8 @@ CFG = dict(
         "refusals, calls to other ImmuServer methods inlined); guards inside conditions it does not interpret are tagged COpaque "
         "and skipped by the model",
         "hand-written in coq/Auth/Policy.v and tied only by the matrix run: getDBFromCtx, getLoggedInUserdataFromCtx, "
-        "token/session validation and invalidation (login counter), SessionAuthInterceptor, the SQL engine's statement check "
+        "token/session validation and the login counter, SessionAuthInterceptor (WHETHER SetActiveUser / ChangePermission "
+        "invalidate unconditionally is read from the generated gate table: steps AInvLogin/AInvSess), the SQL engine's statement check "
         "(Engine.checkUserPermissions via multidbHandler.GetLoggedUser), and the specification table (class of each RPC)",
         "NOT modelled / not in the matrix: SQL statements that administer users/databases (multidbHandler paths), custom SQL "
         "privilege grants, the pgsql wire server, the REST gateway, non-local clients with authentication off "
@@ -44,7 +49,7 @@ CFG = dict(
 
 
 def classify(c):
-    """True when the recorded cell by itself violates the property statement (the harness' direct oracle said so)."""
+    """True when a recorded cell (of the group) by itself violates the property statement (the harness' direct oracle said so)."""
     return bool(c.get("violates"))
 
 
